@@ -24,6 +24,7 @@ struct CmdSpec {
   std::string depfile, rsp, print;
   bool msvc = false, restat = false, gen = false, copy = false, depall = false;
   bool detach = false;       // the tool closes stdout/stderr when done with its work but lives on until ninja waits for it
+  std::string msvc_prefix = "Note: including file: ";   // mp=<hex>: the (localized) text the compiler puts before each file
   bool notes_last = false;   // msvc: the /showIncludes notes come after the tool's own output, the last one without a newline
   // how this tool spells names in its depfile / showIncludes output (canonical name -> spelling), and
   // whether it names all of its outputs as depfile targets (dsp=<hex of a=./a;b=x/../b>, dall=1)
